@@ -30,6 +30,23 @@ theorem NoWs.cons {c : Char} {b : Str} (hc : isSpace c = false) (hb : NoWs b) : 
 
 theorem noWs_nil : NoWs [] := by intro c hc; cases hc
 
+/-- the unquoter of a user name / password (the partial, then `requoteNfkc`: `%`, hex digits) leaves
+no `str.isspace` character either -/
+theorem noWs_unquoteAuthItem {s : Str} (hs : NoCtl s) :
+    ∀ c ∈ unquoteAuthItem s, isSpace c = false := by
+  intro c hc
+  rcases mem_requoteNfkc_cases hc with h1 | rfl | h1
+  · exact noWs_safelyUnquote _ hs c h1
+  · decide
+  · cases hsp : isSpace c with
+    | false => rfl
+    | true =>
+      exfalso
+      have := isHexDigit_toNat h1
+      simp only [isSpace, spaceCodes, List.contains_eq_mem, decide_eq_true_eq] at hsp
+      simp only [List.mem_cons, List.not_mem_nil, or_false] at hsp
+      omega
+
 /-- the fields of `canonParts` in unquoted mode, on what `parseUrl` builds -/
 theorem canonParts_fields (puny : Str → Str) (sf : Bool) (r : SplitResult) (po' : Option Nat) :
     (canonParts puny false sf (parsedOf r po')).scheme = r.scheme ∧
@@ -209,14 +226,14 @@ theorem canon_shape_on (puny : Str → Str) (sf : Bool)
         · exact hnl_nb.1 (hsub hm)
         · exact hnl_nb.2 (hsub hm)
       exact requote_auth_not_mem hd' false u0 hnu hcu
-    have hcc : isControlChar c = false := noCtl_requote false _ hctl0 c hcu
+    have hcc : isControlChar c = false := noCtl_requote_auth false hctl0 c hcu
     refine ⟨⟨?_, unsafe_of_ctl hcc⟩, hnot '[' (by simp), hnot ']' (by simp), ?_⟩
     · have h1 := hnot '/' (by simp)
       have h2 := hnot '?' (by simp)
       have h3 := hnot '#' (by simp)
       simp [isNetlocDelim, h1, h2, h3]
     · simp only [requote, Bool.false_eq_true, if_false] at hcu
-      exact noWs_safelyUnquote _ hctl0 c hcu
+      exact noWs_unquoteAuthItem hctl0 c hcu
   have hpass : ∀ c ∈ P, UiChar c ∧ c ≠ '[' ∧ c ≠ ']' ∧ isSpace c = false := by
     intro c hc
     rw [← hP] at hc
@@ -240,14 +257,14 @@ theorem canon_shape_on (puny : Str → Str) (sf : Bool)
         · exact hnl_nb.1 (hsub hm)
         · exact hnl_nb.2 (hsub hm)
       exact requote_auth_not_mem hd' false u0 hnu hcu
-    have hcc : isControlChar c = false := noCtl_requote false _ hctl0 c hcu
+    have hcc : isControlChar c = false := noCtl_requote_auth false hctl0 c hcu
     refine ⟨⟨?_, unsafe_of_ctl hcc⟩, hnot '[' (by simp), hnot ']' (by simp), ?_⟩
     · have h1 := hnot '/' (by simp)
       have h2 := hnot '?' (by simp)
       have h3 := hnot '#' (by simp)
       simp [isNetlocDelim, h1, h2, h3]
     · simp only [requote, Bool.false_eq_true, if_false] at hcu
-      exact noWs_safelyUnquote _ hctl0 c hcu
+      exact noWs_unquoteAuthItem hctl0 c hcu
   have hauth : (authPart U P = [] ∨ ∃ w, authPart U P = w ++ ['@'] ∧ w ≠ [] ∧
       ∀ c ∈ w, UiChar c ∧ c ≠ '[' ∧ c ≠ ']' ∧ isSpace c = false) := by
     unfold authPart
